@@ -250,6 +250,9 @@ impl<K: CacheKey + 'static> DiskCache<K> {
                     }
                 }
 
+                #[cfg(feature = "verif-hooks")]
+                crate::verif_hooks::sched_point("disk.cleanup.swept");
+
                 if removed_count > 0 {
                     entry_count.fetch_sub(removed_count, Ordering::Relaxed);
                     disk_usage.fetch_sub(freed_bytes, Ordering::Relaxed);
